@@ -478,6 +478,8 @@ def run_value(case, rec):
     except Exception:
         pass
     held.verify(rec, ctx)
+    if meta["trunc"] == 2 and declared.get(meta["trunc_par"], (None,))[0] == 0 and pars[meta["trunc_par"]] > 0:
+        _edge_of_limits(rec, i, name, kernel, oracle, pars, meta, dim, qv, qo)
     rec.set_shape(shape, nontrivial=(max(lengths + [0]) >= 2 or meta["trunc"] is not None))
     rec.count("kernel_invocations", len(tr.trace))
     rec.count("mesh_points", st["mesh_points"])
@@ -485,6 +487,65 @@ def run_value(case, rec):
         rec.observe(model=name, dim=dim, lengths=lengths, cutoff=cutoff, I=I, expected=ref, stats=st,
                     trace=tr.trace[:6])
     kernel.release()
+
+
+def _edge_of_limits(rec, i, name, kernel, oracle, pars, meta, dim, qv, qo):
+    """A distribution whose lowest point lies exactly on the declared lower limit (gaussian, 3 points, 50 % over two
+    sigma: {0, v, 2v}): the limits are closed, so all three points take part; and a fit range entered on a SasView model
+    object (its details table) is not a limit of the distribution."""
+    from sasmodels import direct_model, sasview_model
+    tname = meta["trunc_par"]
+    v = float(pars[tname])
+    pe = {k: x for k, x in pars.items() if not k.startswith(tname + "_pd")}
+    pe.update({tname + "_pd": 0.5, tname + "_pd_n": 3, tname + "_pd_nsigma": 2.0, tname + "_pd_type": "gaussian"})
+    mesh = direct_model.get_mesh(i, pe, dim=dim)
+    pos = meta["trunc_pos"]
+    pts, wts = np.asarray(mesh[pos][1], float), np.asarray(mesh[pos][2], float)
+    want_p = np.array([0.0, v, 2.0*v])
+    want_w = np.array([math.exp(-2.0), 1.0, math.exp(-2.0)])
+    okm = (len(pts) == 3 and np.allclose(pts, want_p, rtol=1e-14, atol=0.0)
+           and np.allclose(wts/wts.sum(), want_w/want_w.sum(), rtol=1e-12, atol=0.0))
+    ctx = {"model": name, "dim": dim, "parameter": tname, "value": v, "pars": pe}
+    rec.check("mesh_keeps_point_on_declared_limit", okm, dict(ctx, points=pts, weights=wts, expected_points=want_p),
+              key="C01/point-on-declared-limit")
+    mine = [tuple(m_) for m_ in mesh]
+    mine[pos] = (mesh[pos][0], want_p, want_w/want_w.sum())
+    I = np.asarray(direct_model.call_kernel(kernel, dict(pe)), float)
+    ref, _ = oracle.intensity(mine, qo, dim, 0.0)
+    fin = np.abs(ref - mesh[1][0])[np.isfinite(ref)]
+    sc = float(np.max(fin)) if len(fin) else 0.0
+    oki = core.close(I, ref, 1e-10, 1e-12*sc)
+    rec.check("I_equals_weighted_mean", oki,
+              None if oki else dict(ctx, note="lowest mesh point exactly on the declared lower limit", observed=I, expected=ref),
+              key="C01/point-on-declared-limit")
+    rec.bucket("trunc:point-on-limit")
+    if any(p_.is_control for p_ in i.parameters.kernel_parameters):
+        return
+    # the same request through a SasView model object on which a narrow fit range has been entered for that parameter
+    m = sasview_model._make_standard_model(name)()
+    for k, x in pe.items():
+        if k in m.params and "_pd" not in k:
+            m.setParam(k, x)
+    for k in pe:
+        if k.endswith("_pd"):
+            base = k[:-3]
+            m.setParam(base + ".width", pe[k])
+            m.setParam(base + ".npts", pe.get(base + "_pd_n", 35))
+            m.setParam(base + ".nsigmas", pe.get(base + "_pd_nsigma", 3.0))
+            m.setParam(base + ".type", pe.get(base + "_pd_type", "gaussian"))
+    try:
+        m.details[tname] = [m.details[tname][0], 0.9*v, 1.1*v]
+        Is = np.asarray(m.evalDistribution(qv[0] if len(qv) == 1 else [qv[0], qv[1]]), float)
+    except Exception as exc:
+        rec.check("I_equals_weighted_mean", False, dict(ctx, note="SasView model object with a fit range entered",
+                                                         exception=repr(exc)[:400]), key="C01/sasview-fit-range")
+        return
+    oks = core.close(Is, I, 1e-10, 1e-12*sc)
+    rec.check("I_equals_weighted_mean", oks,
+              None if oks else dict(ctx, note="SasView model object with the fit range [0.9v, 1.1v] entered in its details "
+                                    "table: the distribution is cut by the declared limits, not by the fit range",
+                                    observed=Is, expected=I), key="C01/sasview-fit-range")
+    rec.bucket("entry:sasview-with-fit-range")
 
 
 def declared_limits(i):
